@@ -372,7 +372,8 @@ def stage_b(ctx, procs):
     for it in items:
         rules, wf, why, noself = to_json(it[2]), it[3], it[4], it[5]
         text = K.render(rules)
-        oc, ck, msg = K.build(text)
+        oc, ck, msg, note = K.build2(text)
+        K.recompile_violation(ctx, 'C13', note, text)
         ctx.traces += 1
         ctx.evaluations += 1
         seen[why] = seen.get(why, 0) + 1
@@ -441,7 +442,10 @@ def stage_c(ctx, procs):
     for s in range(max(nschema, ncorrupt)):
         rules = gen.schema()
         text = K.render(rules)
-        oc, ck, msg = K.build(text)
+        # every compilation of a well-formed schema must give a loadable model: compile twice (see lvskit.build2);
+        # the record judged below is the outcome of the second compilation when the two differ
+        oc, ck, msg, note = K.build2(text)
+        K.recompile_violation(ctx, 'C13', note, text)
         ctx.traces += 1
         sid += 1
         rec = {'sid': sid, 'kind': 'w', 'rules': rules, 'outcome': oc, 'loadok': False}
@@ -534,6 +538,8 @@ def replay(ctx, path):
     with open(path) as f:
         obj = json.load(f)
     k = obj.get('kind')
+    if k == 'recompile':
+        return c11.replay(ctx, path)
     if k == 'w':
         text = K.render(obj['rules'])
         oc, ck, msg = K.build(text)
